@@ -204,6 +204,7 @@ func runCheck(repo, vdir, prop, tier string, verbose, updateBaseline, writeEvide
 	}
 	// vacuity guards
 	var vacuous []string
+	var deadClauses []string
 	for _, n := range order {
 		g := groups[n]
 		ob0 := obls[g.Instances[0]]
@@ -222,6 +223,9 @@ func runCheck(repo, vdir, prop, tier string, verbose, updateBaseline, writeEvide
 		}
 		if anySat {
 			g.Status = "reachable"
+		} else if allUnsat && ob0.Soft {
+			g.Status = "dead-clause"
+			deadClauses = append(deadClauses, n)
 		} else if allUnsat {
 			g.Status = "vacuous"
 			vacuous = append(vacuous, n)
@@ -322,6 +326,9 @@ func runCheck(repo, vdir, prop, tier string, verbose, updateBaseline, writeEvide
 	exit := 0
 	if len(violations) > 0 {
 		exit = 1
+	}
+	for _, d := range deadClauses {
+		fmt.Fprintln(os.Stderr, "note: dead clause (antecedent unreachable after the call):", d)
 	}
 	hard := ""
 	if len(vacuous) > 0 {
